@@ -258,3 +258,57 @@ func Patch(text string, d jd.Diff) PatchOutcome {
 	}
 	return out
 }
+
+// Live builds the document `text` as the live result of a Patch instead of reading it:
+// every array of the document (at any depth) gets a sentinel element appended, the library
+// diffs that state against the document under the option set `construct` and applies the
+// diff. The value returned is what a caller holds after a.Patch(d) (for arrays: whatever
+// typed view the patch functions return). ok=false if the document has no array, or the
+// library could not build it (then that is some other check's subject).
+func Live(text string, construct string) (n jd.JsonNode, ok bool) {
+	v, err := ref.Parse(text)
+	if err != nil || ref.IsVoid(v) {
+		return nil, false
+	}
+	replace := strings.HasPrefix(construct, "replace:")
+	construct = strings.TrimPrefix(construct, "replace:")
+	arrays := 0
+	var grow func(x ref.V) ref.V
+	grow = func(x ref.V) ref.V {
+		switch t := x.(type) {
+		case []interface{}:
+			arrays++
+			if replace {
+				// the whole array arrives as the added value of one hunk
+				return "\u0001placeholder"
+			}
+			out := make([]interface{}, 0, len(t)+1)
+			for _, e := range t {
+				out = append(out, grow(e))
+			}
+			return append(out, "\u0001sentinel")
+		case map[string]interface{}:
+			out := map[string]interface{}{}
+			for k, e := range t {
+				out[k] = grow(e)
+			}
+			return out
+		}
+		return x
+	}
+	start := ref.JSON(grow(v))
+	if arrays == 0 {
+		return nil, false
+	}
+	o := Options(construct)
+	a0, a := Read(start), Read(text)
+	res, perr := a0.Patch(a0.Diff(a, o.Opts...))
+	if perr != nil || res == nil {
+		return nil, false
+	}
+	got, gerr := ToV(res)
+	if gerr != nil || !ref.Equal(got, v, o.Reading) {
+		return nil, false
+	}
+	return res, true
+}
